@@ -8,8 +8,9 @@ import dask.local
 import numpy as np
 
 import exprs
+import names as nm
 import progs
-from common import Check
+from common import Check, coq_eval_cases
 
 
 def fp_value(v):
@@ -27,14 +28,238 @@ def node_meta(n):
 
 
 def run(chk: Check):
+    with nm.recording():
+        _run(chk)
+
+
+class ModelTie:
+    """Model-correspondence family: reify real nodes into coq/theories/Names.v and compare, inside Coq, the
+    equality pattern of the model's names / tokens with the one of the real `_name` / `deterministic_token`
+    strings; plus the Python-side content fingerprints (names <-> fingerprints, both ways)."""
+
+    def __init__(self, chk):
+        self.chk = chk
+        self.R = nm.Reifier()
+        self.case = nm.Case(self.R)
+        self.cases, self.info = [], []
+        self.programs_in_case = 0
+        self.by_name = {}      # _name -> (content fingerprint, program)
+        self.by_full = {}      # full fingerprint -> (_name, program)
+
+    # ---- Python-side fingerprints
+    def fingerprint(self, node, pshow):
+        chk = self.chk
+        try:
+            full, content = nm.fingerprints(node)
+        except Exception:  # noqa: BLE001
+            chk.count("fingerprint:raises")
+            return
+        chk.count("fingerprints")
+        old = self.by_name.get(node._name)
+        if old is None:
+            self.by_name[node._name] = (content, pshow)
+        elif old[0] != content:
+            kids = [d for d in node.dependencies()]
+            via = sorted({type(k).__name__ for k in kids})
+            chk.violation(f"two nodes named {node._name} have different content fingerprints",
+                          {"name": node._name, "first": {"fingerprint": repr(old[0])[:600], "program": old[1]},
+                           "second": {"fingerprint": repr(content)[:600], "program": pshow}},
+                          signature={"class": "name-collision-fingerprint", "cls": type(node).__name__,
+                                     "via": "Random" if any("Random" in v for v in via) else "other"})
+        old = self.by_full.get(full)
+        if old is None:
+            self.by_full[full] = (node._name, pshow)
+        elif old[0] != node._name:
+            chk.violation(f"equal class and operands but two names ({old[0]} / {node._name}): de-duplication misses",
+                          {"first": {"name": old[0], "program": old[1]}, "second": {"name": node._name, "program": pshow}},
+                          signature={"class": "dedup-miss", "cls": type(node).__name__})
+
+    # ---- Coq model
+    def add(self, roots, pshow, raw=None, lowered=None):
+        """register and reify every node under `roots`; RootAlias `lowered` is tied to its `raw` root"""
+        chk, R = self.chk, self.R
+        from dask_array._expr import ArrayExpr, RootAlias
+        for r in roots:
+            for node in r.walk():
+                if isinstance(node, ArrayExpr):
+                    R.register(node)
+        if lowered is not None and isinstance(lowered, RootAlias) and raw is not None:
+            R.raw_of[id(lowered)] = raw
+        for r in roots:
+            for node in r.walk():
+                if not isinstance(node, ArrayExpr):
+                    continue
+                try:
+                    self.case.node(node)
+                    chk.count("model:" + type(node).__name__)
+                except nm.Unmodelled as e:
+                    chk.count("unmodelled:" + str(e)[:60])
+                except Exception as e:  # noqa: BLE001
+                    chk.count("unmodelled:raises:" + type(e).__name__)
+        self.programs_in_case += 1
+        if self.programs_in_case >= 3 or len(self.case.rows) > 60:
+            self.flush(pshow)
+
+    def flush(self, pshow=""):
+        if self.case.rows:
+            self.cases.append(self.case.literal())
+            self.info.append({"last_program": pshow, "nodes": len(self.case.rows), "classes": sorted(set(self.case.classes))})
+        self.case = nm.Case(self.R)
+        self.programs_in_case = 0
+
+    def finish(self):
+        chk = self.chk
+        self.flush()
+        bad, _ = coq_eval_cases(nm.HEADER, nm.CASE_TYPE, nm.CHECK_DEF, self.cases, chunk=25)
+        for i in bad:
+            chk.tie_break("names-model-mismatch", {"case": self.info[i], "literal": self.cases[i][:3000]})
+        chk.traces_validated += len(self.cases) - len(bad)
+        chk.extra["model_cases"] = len(self.cases)
+        chk.extra["model_nodes"] = sum(i["nodes"] for i in self.info)
+
+
+def probe_pairs(chk, tie, da):
+    """targeted families: (1) draws from ONE rng object; (2) nodes that differ only in an operand the
+    tokenizer omits; (3) exact-named FromArray regions / rechunks; all go through the fingerprints and the
+    Coq model as well"""
+    import dask
+    from dask_array._expr import ArrayExpr
+
+    def both(label, a, b, must_differ_when_values_differ=True):
+        chk.count("probe:" + label)
+        chk.case(("probe", label), nontrivial=True)
+        for x in (a, b):
+            forms = {"raw": x.expr}
+            try:
+                with warnings.catch_warnings():
+                    warnings.simplefilter("ignore")
+                    forms.update(exprs.phases(x.expr))
+                    low = x._lowered_expr
+            except Exception:  # noqa: BLE001
+                low = None
+            for e in forms.values():
+                for node in e.walk():
+                    if isinstance(node, ArrayExpr):
+                        tie.fingerprint(node, label)
+            tie.add(list(forms.values()) + ([low] if low is not None else []), label, raw=x.expr, lowered=low)
+        if a.name == b.name:
+            with warnings.catch_warnings():
+                warnings.simplefilter("ignore")
+                va, vb = a.compute(scheduler="sync"), b.compute(scheduler="sync")
+            if not (np.array_equal(va, vb, equal_nan=True) and a.chunks == b.chunks and a.dtype == b.dtype):
+                return True
+        return False
+
+    # (1) shared rng: the minimal reproducer comes first
+    for kind in ("Generator.random", "RandomState.random_sample", "module.random", "Generator.normal"):
+        if kind.startswith("Generator"):
+            rng = da.random.default_rng(7)
+            mk = (lambda: rng.random((6,), chunks=3)) if kind.endswith("random") else (lambda: rng.normal(size=(6,), chunks=3))
+        elif kind.startswith("RandomState"):
+            rs = da.random.RandomState(7)
+            mk = lambda: rs.random_sample((6,), chunks=3)  # noqa: E731
+        else:
+            mk = lambda: da.random.random((6,), chunks=3)  # noqa: E731
+        r1, r2 = mk(), mk()
+        a, b = r1 + 1, r2 + 1
+        both("shared-rng:" + kind, a, b)
+        tie.add([r1.expr, r2.expr], "shared-rng:" + kind)      # two nodes, two names, two tokens (was: ONE token)
+        with warnings.catch_warnings():
+            warnings.simplefilter("ignore")
+            v2, vb = r2.compute(scheduler="sync"), b.compute(scheduler="sync")
+            c1, c2 = dask.compute(r1, r2, scheduler="sync")
+        # REGRESSION probe for finding C06-A (fixed): the parents must be told apart, (r2 + 1) must be r2 + 1 and
+        # dask.compute(r1, r2) must return two different arrays
+        if (a.name == b.name or r1.expr.deterministic_token == r2.expr.deterministic_token or r1.name == r2.name
+                or not np.allclose(vb, v2 + 1) or np.array_equal(c1, c2) or not np.array_equal(c2, v2)):
+            chk.violation(f"{kind}: two draws r1, r2 from one rng object: (r1 + 1).name == (r2 + 1).name although r1.name != r2.name "
+                          "and the values differ (the parents hash the rng operand's CURRENT state, not the draw)",
+                          {"kind": kind, "r1": r1.name, "r2": r2.name, "parent": a.name,
+                           "repro": "rng = da.random.default_rng(0); r1 = rng.random(6, chunks=3); r2 = rng.random(6, chunks=3); "
+                                    "(r1 + 1).name == (r2 + 1).name  # True; dask.compute(r1, r2) returns r1 twice"},
+                          signature={"class": "node-name-collision", "cls": "Elemwise", "via": "shared-rng"})
+        # separately seeded generators with the same seed are the same array, different seeds are not
+        s1, s2 = da.random.default_rng(3).random((6,), chunks=3), da.random.default_rng(3).random((6,), chunks=3)
+        if both("same-seed", s1 + 1, s2 + 1):
+            chk.violation("equal seeds: equal names but different arrays", {}, signature={"class": "node-name-collision", "cls": "Random"})
+    # (4) "auto" chunks are normalised lazily from array.chunk-size, which the name does not depend on
+    import gc
+    big = np.arange(4000, dtype="float64")
+    for label, mk in (("from_array", lambda: da.from_array(big, chunks="auto")), ("arange", lambda: da.arange(4000, chunks="auto"))):
+        chk.count("probe:auto-chunks:" + label)
+        chk.case(("probe", "auto-chunks", label), nontrivial=True)
+        with dask.config.set({"array.chunk-size": "8KiB"}):
+            a = mk()
+            first = (a.name, a.chunks, {k: np.asarray(v).shape for k, v in dict(a.__dask_graph__()).items() if isinstance(v, np.ndarray)})
+        del a
+        gc.collect()
+        with dask.config.set({"array.chunk-size": "16KiB"}):
+            b = mk()
+            second = (b.name, b.chunks)
+        if first[0] == second[0] and first[1] != second[1]:
+            chk.violation(f"{label}(chunks='auto'): the name does not depend on array.chunk-size but the chunks do: one name, two "
+                          f"block structures in one process ({first[1]} then {second[1]})",
+                          {"name": first[0], "first_chunks": first[1], "second_chunks": second[1],
+                           "repro": "with dask.config.set({'array.chunk-size': '8KiB'}): a = da.from_array(np.arange(4000.), chunks='auto'); n, c = a.name, a.chunks; "
+                                    "del a; with dask.config.set({'array.chunk-size': '16KiB'}): b = da.from_array(np.arange(4000.), chunks='auto'); "
+                                    "assert b.name == n and b.chunks != c"},
+                          signature={"class": "node-name-collision", "cls": type(b.expr).__name__, "via": "config-auto-chunks"})
+        del b
+        gc.collect()
+    x = da.from_array(np.arange(12.0), chunks=4)
+
+    def f(b, k=1):
+        return b * k
+
+    # (2) omitted operands: meta / name / token
+    pairs = [
+        ("map_blocks:meta", lambda: x.map_blocks(f, dtype="f8", meta=np.empty((0,))), lambda: x.map_blocks(f, dtype="f8", meta=np.ma.empty((0,)))),
+        ("map_blocks:name", lambda: x.map_blocks(f, dtype="f8", name="aa").sum(), lambda: x.map_blocks(f, dtype="f8", name="bb").sum()),
+        ("map_blocks:kwargs", lambda: x.map_blocks(f, k=2, dtype="f8"), lambda: x.map_blocks(f, k=3, dtype="f8")),
+        ("reduction:meta", lambda: da.reduction(x, np.sum, np.sum, dtype="f8", meta=np.empty(())), lambda: da.reduction(x, np.sum, np.sum, dtype="f8", meta=np.ma.empty(()))),
+        ("reduction:name", lambda: da.reduction(x, np.sum, np.sum, dtype="f8", name="aa") + 1, lambda: da.reduction(x, np.sum, np.sum, dtype="f8", name="bb") + 1),
+        ("reduction:dtype", lambda: x.sum(dtype="f4"), lambda: x.sum(dtype="f8")),
+        ("reduction:keepdims", lambda: x.sum(keepdims=True), lambda: x.sum()),
+        ("reduction:split_every", lambda: x.sum(split_every=2), lambda: x.sum(split_every=3)),
+        # (3) exact names
+        ("region", lambda: x[2:9] + 1, lambda: x[2:10] + 1),
+        ("region:int", lambda: da.from_array(np.arange(12.0).reshape(3, 4), chunks=2)[1] + 1, lambda: da.from_array(np.arange(12.0).reshape(3, 4), chunks=2)[2] + 1),
+        ("region:nested", lambda: x[2:][1:5] + 1, lambda: x[3:7] + 1),
+        ("io-rechunk", lambda: x.rechunk(3) + 1, lambda: x.rechunk(6) + 1),
+        ("rechunk:method", lambda: (x + 1).rechunk(3), lambda: (x + 1).rechunk(3, method="tasks")),
+        ("rechunk:spelling", lambda: (x + 1).rechunk(3), lambda: (x + 1).rechunk((3,))),
+    ]
+    for label, m1, m2 in pairs:
+        with warnings.catch_warnings():
+            warnings.simplefilter("ignore")
+            a, b = m1(), m2()
+        if both(label, a, b):
+            chk.violation(f"{label}: equal names but different arrays", {"name": a.name},
+                          signature={"class": "node-name-collision", "cls": type(a.expr).__name__, "via": label})
+
+
+def _run(chk: Check):
     import dask_array as da
     from dask_array._expr import ArrayExpr
     chk.rule = ("programs built in ONE process over a shared pool of sources (same data with different chunkings, different data with "
                 "the same shape and chunking, pinned/hand-built names: FromArray regions and rechunks, Rechunk content hashes, fused groups, "
                 "random arrays); every expression node of the raw, simplified, lowered and fused forms is registered under its _name with "
                 "(class, shape, dtype, chunks); every graph key of every program is executed and registered with a hash of its value; a "
-                "name or key seen with two different fingerprints is a violation; non-trivial = name/key seen more than once")
+                "name or key seen with two different fingerprints is a violation; non-trivial = name/key seen more than once.  "
+                "Model tie: every node of every form (and of targeted probes: draws from one rng object, nodes that differ only in an operand "
+                "the tokenizer omits, exact-named FromArray regions/rechunks, auto chunks under two configs) is (a) fingerprinted in Python "
+                "(class, operands minus the omitted ones, children's names, chunks, dtype): equal names <=> equal fingerprints both ways, and "
+                "(b) reified into coq/theories/Names.v; Coq checks that the model's names and tokens (executable injective hash) have exactly "
+                "the equality pattern of the real _name / deterministic_token strings")
     chk.run_proofs()
+    chk.assumptions = ["hash collisions excluded: dask's md5 tokenize and the pickle hash of Rechunk are injective (H_inj, Hp_inj)",
+                       "id() is injective on simultaneously live untokenizable operands (addr_inj)",
+                       "leaf operands are atoms: dask's normalize_token is trusted for non-expression operands",
+                       "a string operand never equals the 32-hex token of an expression (children enter as tokens)",
+                       "the configuration (array.chunk-size) is fixed during the process: 'auto' chunks are normalised lazily "
+                       "(violated across config changes, known finding C06-B)"]
+    tie = ModelTie(chk)
+    probe_pairs(chk, tie, da)
     names = {}      # _name -> (meta, class, program)
     keys = {}       # graph key -> (value fingerprint, program)
     seen_twice = 0
@@ -46,6 +271,7 @@ def run(chk: Check):
         for _ in range(2):
             shared.append((data, tuple(progs.rand_chunks_for(rng, n) for n in data.shape)))
     n = 8000 if chk.tier == "thorough" else 1200
+    model_n = 2400 if chk.tier == "thorough" else 300
     for it in range(n):
         g = progs.Gen(rng, ops=progs.CORE_OPS + ["take", "roll"], sources=shared)
         prog, want = g.program(rng.choice([1, 2, 3, 4]))
@@ -61,10 +287,19 @@ def run(chk: Check):
             chk.count("skipped:raises")
             continue
         chk.case(("prog", pshow, it), nontrivial=True, sample={"program": pshow} if it < 4 else None)
+        if it < model_n:
+            try:
+                with warnings.catch_warnings():
+                    warnings.simplefilter("ignore")
+                    low = arr._lowered_expr
+            except Exception:  # noqa: BLE001
+                low = None
+            tie.add(list(forms.values()) + ([low] if low is not None else []), pshow, raw=arr.expr, lowered=low)
         for fname, e in forms.items():
             for node in e.walk():
                 if not isinstance(node, ArrayExpr):
                     continue
+                tie.fingerprint(node, pshow)
                 meta = (type(node).__name__,) + node_meta(node)
                 chk.count("nodes")
                 old = names.get(node._name)
@@ -117,6 +352,7 @@ def run(chk: Check):
             if a.name == b.name and not np.array_equal(va, vb):
                 chk.violation("two random arrays share a name but hold different values", {"seed": seed, "a": a.name},
                               signature={"class": "node-name-collision", "cls": "Random"})
+    tie.finish()
     chk.extra["distinct_names"] = len(names)
     chk.extra["distinct_keys"] = len(keys)
     chk.extra["names_or_keys_seen_more_than_once"] = seen_twice
